@@ -6,7 +6,11 @@ Code under test: tracklib.util.geometry.proj_segment / proj_polyligne, tracklib.
 
 A case is {"pts": [[x, y], ...], "qs": [[x, y], ...], "kinds": [str, ...]}: the polyline, 1..5 query
 points (each judged on its own) and the generator's label of each query (labels only feed the
-histogram)."""
+histogram).  Optional fields (absent = the old behaviour): "off": [ox, oy] - the whole case (polyline
+and queries) is translated by that offset before tracklib sees it (pts / qs are the local coordinates);
+"zs": [z, ...] heights of the vertices of the reference track and "qz": height of the queries (mapOnTrack
+sub-checks; the property is planimetric, nothing is demanded of heights); "ints": integer-valued
+coordinates are handed over as Python ints."""
 import math
 import numbers
 
@@ -19,16 +23,35 @@ from tracklib.util.geometry import proj_polyligne, proj_segment
 from vt import gen, oracle
 from vt.core import SubCheck, Violation, exc_key
 
-REL_TOL = 1e-9            # x scale (largest |coordinate| of polyline and query, at least 1)
+REL_TOL = 1e-9            # x local extent (largest |coordinate - offset| of polyline and query, at least 1)
+ARITH = 16 * 2.0 ** -52   # x magnitude (largest |coordinate|, offset included) x (1 + steepest |dy/dx| of a segment):
+                          # rounding of the library's line equation a x + b y + c = 0 / point (0, -c/b) at that magnitude
 DEGENERATE = 1e-9         # |dx| < DEGENERATE*|dy| (dx != 0) etc.: rounding decides, nothing demanded
 
 ASSUMPTIONS = [
     "oracle = clamped-parameter nearest point per proper segment in float64 (vt.oracle.pt_seg_nearest), minimum over segments",
-    "domain: 2..8 vertices, coordinates n/1000 with n integer (1/8 lattice of [-16,16]^2 plus offsets 0.1, 0.3, +-0.001), "
+    "domain: 2..8 vertices, local coordinates n/100000 with n integer (1/8 lattice of [-16,16]^2 plus offsets 0.1, 0.3, +-0.001; "
+    "'short' steps of 1e-3..0.04 and 'micro' steps of 1e-5..1e-3 per coordinate), "
     "at least one segment of non-zero length; exactly horizontal / vertical / zero-length segments are made by copying coordinates; "
-    "non-zero coordinate differences are >= 1e-3, so no segment is 'almost' axis-parallel or 'almost' zero-length "
-    "(such inputs in a replay are answered undef)",
-    "tolerance 1e-9 x max(1, largest |coordinate| of polyline and query) on every length compared",
+    "apart from the micro steps non-zero coordinate differences are >= 1e-3, so no segment is 'almost' axis-parallel or 'almost' "
+    "zero-length (such inputs in a replay are answered undef)",
+    "translation (case['off']): the whole case - polyline and queries - is shifted by (ox, oy), each 0 or a multiple of 2^10 up to "
+    "7.3e6 in magnitude (projected-grid coordinates, E ~ 6.5e5, N ~ 6.86e6 among them); the shifted float64 numbers ARE the case "
+    "(the oracle works on them), equal local coordinates stay equal; with an offset the short / micro steps are 0.1..10 long, so "
+    "segments are 0.1..45 long",
+    "tolerance on every length compared = 1e-9 x max(1, largest |local coordinate|) + 16 ulp-units (16 x 2^-52) x max(1, largest "
+    "|coordinate| offset included) x (1 + steepest |dy/dx| of a non-vertical segment): the second term is the rounding of the "
+    "library's own arithmetic (line a x + b y + c = 0 through points of that magnitude, foot computed from the point (0, -c/b)); "
+    "at E/N ~ 7e6 it is 2.5e-8 x (1 + slope), i.e. micrometres for ordinary slopes and < 1 mm for the steepest generated "
+    "segment (dx = 1e-3, dy = 32), far below the segment lengths (>= 0.1); without offset it adds < 6% to the first term",
+    "mapOnTrack sub-checks: the reference track may carry heights (case['zs']: flat / different at every fix, repeated "
+    "horizontal positions included / differing by less than ENUCoords' 1e-4 equality tolerance / large) and the query a "
+    "height (case['qz']); the property is planimetric (x, y of the returned point, 2D distance), nothing is demanded of z. "
+    "Reference track and query are ENUCoords: mapOnTrack on GeoCoords / ECEFCoords runs on getX()/getY() (degrees / metres "
+    "from the geocentre) and returns an ENUCoords of those numbers, while the library's own distance between GeoCoords is "
+    "metric - which distance 'the minimum distance' would be is not defined there, so nothing is demanded (not generated)",
+    "case['ints']: integer-valued coordinates are handed over as Python ints (lists of proj_segment / proj_polyligne, "
+    "gen.make_track(ints=True), the query ENUCoords)",
     "proj_segment is only called on a segment of non-zero length (proj_polyligne skips the others itself)",
     "any segment that carries the returned point is accepted as 'the index' (ties at a shared vertex are free)",
     "a case carries 1..5 query points for one polyline; every query is judged on its own (mapOnTrack(track, track) "
@@ -68,13 +91,15 @@ def _ill_conditioned(pts):
 class Ref:
     """everything the oracle knows about one (polyline, query)"""
 
-    def __init__(self, pts, q):
+    def __init__(self, pts, q, off=(0.0, 0.0)):
         self.pts, self.q = pts, q
         self.segs = _segs(pts)
         self.orient = [_orient(s) for s in self.segs]
         self.proper = [i for i, o in enumerate(self.orient) if o != "zero"]
         self.scale = max([1.0, abs(q[0]), abs(q[1])] + [abs(c) for p in pts for c in p[:2]])
-        self.tol = REL_TOL * self.scale
+        self.local = max([1.0, abs(q[0] - off[0]), abs(q[1] - off[1])] + [abs(p[k] - off[k]) for p in pts for k in (0, 1)])
+        self.slope = max([abs((s[3] - s[1]) / (s[2] - s[0])) for s in self.segs if s[2] != s[0]] or [0.0])
+        self.tol = REL_TOL * self.local + ARITH * self.scale * (1.0 + self.slope)
         self.near = {i: oracle.pt_seg_nearest(q[0], q[1], *self.segs[i]) for i in self.proper}
         self.dmin = min(n[3] for n in self.near.values())
         self.argmin = [i for i in self.proper if self.near[i][3] <= self.dmin + self.tol]
@@ -186,9 +211,11 @@ def _call(refs, fn):
         raise
 
 
-def _info(refs, kinds):
+def _info(refs, kinds, P=None):
     cls = []
     nt = False
+    if P is not None:
+        cls.extend(P.labels())
     for ref, kind in zip(refs, kinds):
         cls.append("q-" + kind)
         foot = any(ref.interior(i) for i in ref.argmin)
@@ -207,25 +234,76 @@ def _info(refs, kinds):
             cls.append("nearest-on-horizontal-nondyadic-y")
         if any(ref.length(i) < 0.1 for i in ref.argmin):
             cls.append("nearest-on-short-segment")
+        if any(ref.length(i) < 1e-3 for i in ref.argmin):
+            cls.append("nearest-on-micro-segment" + ("-foot" if foot else "-vertex"))
     ref = refs[0]
     for o in ("vertical", "horizontal", "zero", "oblique"):
         if o in ref.orient:
             cls.append("has-" + o)
     if any(ref.length(i) < 0.1 for i in ref.proper):
         cls.append("has-short")
+    if any(ref.length(i) < 1e-3 for i in ref.proper):
+        cls.append("has-micro")
+        if all(ref.length(i) < 1e-3 for i in ref.proper):
+            cls.append("all-proper-segments-micro")
     cls.append("nseg-%d" % len(ref.segs))
     return {"nt": nt, "cls": cls}
 
 
+class Prep:
+    """the case as tracklib gets it: translated polyline and queries, heights, number type"""
+
+    def __init__(self, case):
+        off = case.get("off") or [0.0, 0.0]
+        self.off = (float(off[0]), float(off[1]))
+        self.pts = [[float(p[0]) + self.off[0], float(p[1]) + self.off[1]] for p in case["pts"]]
+        self.qs = [[float(q[0]) + self.off[0], float(q[1]) + self.off[1]] for q in case["qs"]]
+        self.kinds = list(case.get("kinds") or ["?"] * len(self.qs))
+        zs = case.get("zs")
+        self.zs = [float(z) for z in zs] if zs else [0.0] * len(self.pts)
+        self.qz = float(case.get("qz") or 0.0)
+        self.ints = bool(case.get("ints"))
+
+    def ok(self):
+        pts, qs = self.pts, self.qs
+        if len(pts) < 2 or not qs or len(self.zs) != len(pts) or all(o == "zero" for o in (_orient(s) for s in _segs(pts))):
+            return False
+        if not all(math.isfinite(c) for p in pts + qs + [self.zs, [self.qz]] for c in p) or _ill_conditioned(pts):
+            return False
+        return True
+
+    def num(self, v):
+        return gen.as_int_if_integral(v) if self.ints else v
+
+    def refs(self, pts=None):
+        return [Ref(pts or self.pts, q, self.off) for q in self.qs]
+
+    def pts3(self):
+        return [(p[0], p[1], z) for p, z in zip(self.pts, self.zs)]
+
+    def labels(self):
+        m = max(abs(self.off[0]), abs(self.off[1]))
+        cls = ["off:none" if m == 0 else "off:<1e5" if m < 1e5 else "off:1e5..1e6" if m < 1e6 else "off:>=1e6"]
+        if self.off[0] != 0 and self.off[1] != 0 and m >= 1e5:
+            cls.append("off:both-axes>=1e5")
+        if any(z != 0 for z in self.zs):
+            cls.append("ref-z:varies")
+            rep = [i for i in range(len(self.pts) - 1) if self.pts[i] == self.pts[i + 1]]
+            if any(self.zs[i] != self.zs[i + 1] for i in rep):
+                cls.append("ref-z:differs-at-repeated-xy" + ("-by<1e-4" if all(abs(self.zs[i] - self.zs[i + 1]) < 1e-4 for i in rep) else ""))
+        else:
+            cls.append("ref-z:flat")
+        if self.qz != 0:
+            cls.append("query-z!=0")
+        if self.ints:
+            cls.append("ints:all-xy-int" if all(c == int(c) for p in self.pts + self.qs for c in p) else "ints:some-xy-int"
+                       if any(c == int(c) for p in self.pts + self.qs for c in p) else "ints:no-integer-valued-xy")
+        return cls
+
+
 def _prep(case):
-    pts = [[float(p[0]), float(p[1])] for p in case["pts"]]
-    qs = [[float(q[0]), float(q[1])] for q in case["qs"]]
-    kinds = list(case.get("kinds") or ["?"] * len(qs))
-    if len(pts) < 2 or not qs or all(o == "zero" for o in (_orient(s) for s in _segs(pts))):
-        return None
-    if not all(math.isfinite(c) for p in pts + qs for c in p) or _ill_conditioned(pts):
-        return None
-    return pts, qs, kinds
+    P = Prep(case)
+    return P if P.ok() else None
 
 
 # ------------------------------------------------------------------------------------------------
@@ -250,69 +328,66 @@ def _each(refs, one):
 
 
 def body_segment(case):
-    p = _prep(case)
-    if p is None:
+    P = _prep(case)
+    if P is None:
         return {"undef": True}
-    pts, qs, kinds = p
-    pts = pts[:2]
+    pts = P.pts[:2]
     if _orient(_segs(pts)[0]) == "zero":
         return {"undef": True}
-    refs = [Ref(pts, q) for q in qs]
-    seg = [pts[0][0], pts[0][1], pts[1][0], pts[1][1]]
+    refs = P.refs(pts)
+    seg = [P.num(pts[0][0]), P.num(pts[0][1]), P.num(pts[1][0]), P.num(pts[1][1])]
 
     def one(ref):
-        r = _call([ref], lambda: proj_segment(list(seg), ref.q[0], ref.q[1]))
+        r = _call([ref], lambda: proj_segment(list(seg), P.num(ref.q[0]), P.num(ref.q[1])))
         if not (isinstance(r, tuple) and len(r) == 3):
             raise Violation("bad-shape", "proj_segment returns %r" % (r,))
         _judge(ref, r[0], r[1], r[2], None, "proj_segment")
     _each(refs, one)
-    return _info(refs, kinds)
+    return _info(refs, P.kinds, P)
 
 
 def body_polyline(case):
-    p = _prep(case)
-    if p is None:
+    P = _prep(case)
+    if P is None:
         return {"undef": True}
-    pts, qs, kinds = p
-    refs = [Ref(pts, q) for q in qs]
-    X, Y = [a[0] for a in pts], [a[1] for a in pts]
+    refs = P.refs()
+    X, Y = [P.num(a[0]) for a in P.pts], [P.num(a[1]) for a in P.pts]
 
     def one(ref):
-        r = _call([ref], lambda: proj_polyligne(list(X), list(Y), ref.q[0], ref.q[1]))
+        r = _call([ref], lambda: proj_polyligne(list(X), list(Y), P.num(ref.q[0]), P.num(ref.q[1])))
         if not (isinstance(r, tuple) and len(r) == 4):
             raise Violation("bad-shape", "proj_polyligne returns %r" % (r,))
         _judge(ref, r[0], r[1], r[2], r[3], "proj_polyligne")
     _each(refs, one)
-    return _info(refs, kinds)
+    return _info(refs, P.kinds, P)
 
 
 def body_map_coord(case):
-    p = _prep(case)
-    if p is None:
+    P = _prep(case)
+    if P is None:
         return {"undef": True}
-    pts, qs, kinds = p
-    refs = [Ref(pts, q) for q in qs]
-    tr = gen.make_track([(a[0], a[1]) for a in pts])
+    refs = P.refs()
+    tr = gen.make_track(P.pts3(), ints=P.ints)
 
     def one(ref):
-        r = _call([ref], lambda: mapOnTrack(ENUCoords(ref.q[0], ref.q[1], 0), tr))
+        r = _call([ref], lambda: mapOnTrack(ENUCoords(P.num(ref.q[0]), P.num(ref.q[1]), P.num(P.qz)), tr))
         if not (isinstance(r, tuple) and len(r) == 3 and hasattr(r[0], "getX")):
             raise Violation("bad-shape", "mapOnTrack(coord, track) returns %r" % (r,))
         _judge(ref, r[1], r[0].getX(), r[0].getY(), r[2], "mapOnTrack(coord, track)")
     _each(refs, one)
-    if [(o[0], o[1]) for o in gen.track_records(tr)] != [(a[0], a[1]) for a in pts]:
+    if [o[:3] for o in gen.track_records(tr)] != P.pts3():
         raise Violation("map-mutates-track", "mapOnTrack changed the track it projects on")
-    return _info(refs, kinds)
+    return _info(refs, P.kinds, P)
 
 
 def body_map_track(case):
-    p = _prep(case)
-    if p is None:
+    P = _prep(case)
+    if P is None:
         return {"undef": True}
-    pts, qs, kinds = p
-    refs = [Ref(pts, q) for q in qs]
-    tr = gen.make_track([(a[0], a[1]) for a in pts])
-    qt = gen.make_track([(q[0], q[1]) for q in qs])
+    qs, kinds = P.qs, P.kinds
+    refs = P.refs()
+    tr = gen.make_track(P.pts3(), ints=P.ints)
+    qt = gen.make_track([(q[0], q[1], P.qz) for q in qs], ints=P.ints)
     out = _call(refs, lambda: mapOnTrack(qt, tr))
     if not hasattr(out, "size") or out.size() != len(qs):
         raise Violation("map-track-size", "mapOnTrack(track, track): %d queries, result %r" % (len(qs), out))
@@ -324,9 +399,11 @@ def body_map_track(case):
         _judge(ref, out.getObsAnalyticalFeature("dist", k), pos.getX(), pos.getY(),
                out.getObsAnalyticalFeature("edge", k), "mapOnTrack(track, track)[%d]" % k)
     _each(refs, one)
-    if [(o[0], o[1]) for o in gen.track_records(qt)] != [(q[0], q[1]) for q in qs]:
+    if [o[:3] for o in gen.track_records(qt)] != [(q[0], q[1], P.qz) for q in qs]:
         raise Violation("map-mutates-track", "mapOnTrack changed the projected track")
-    return _info(refs, kinds)
+    if [o[:3] for o in gen.track_records(tr)] != P.pts3():
+        raise Violation("map-mutates-track", "mapOnTrack changed the track it projects on")
+    return _info(refs, kinds, P)
 
 
 def _readback(tr):
@@ -458,14 +535,25 @@ def body_map_sequence(case):
 
 
 # ------------------------------------------------------------------------------------------------
-# generator.  Coordinates are n / 1000.0 with integer n, so equal values are equal floats and two
-# different values differ by >= 1e-3.  Few draws per case: Hypothesis' per-draw cost dominates.
-OFFSETS = [0, 0, 0, 0, 100, 300, 1, -1]
+# generator.  Local coordinates are n / 100000.0 with integer n ("cu" = 1e-5), so equal values are equal floats; two
+# different values differ by >= 1e-3 (100 cu) except across a micro step.  (n/1000.0 of the earlier milli-unit generator
+# and (100 n)/100000.0 are the same float: both are the correctly rounded quotient.)  Few draws per case: Hypothesis'
+# per-draw cost dominates.
+CU = 100000
+LAT = CU // 8                                  # the 1/8 lattice
+MILLI = CU // 1000
+OFFSETS = [0, 0, 0, 0, CU // 10, 3 * CU // 10, MILLI, -MILLI]
+
+# translations of the whole case: multiples of 2^10 (lattice coordinates stay exact up to 2^23 x 2^10); projected-grid
+# magnitudes (E ~ 6.5e5, N ~ 6.86e6) on one or both axes, both signs
+K = 1024
+TRANSLATIONS = [(0, 0)] * 6 + [(K, -2 * K), (64 * K, 128 * K), (-512 * K, 1024 * K), (636 * K, 6700 * K), (-636 * K, -6700 * K),
+                               (6700 * K, 636 * K), (0, 6700 * K), (636 * K, 0), (4096 * K, -4096 * K), (7168 * K, 7168 * K)]
 
 
 def _coord():
-    """milli-units: (1/8 lattice index) * 125 + offset; one draw, shrinks to 0"""
-    return st.integers(-128 * 8, 128 * 8 + 7).map(lambda v: (v >> 3) * 125 + OFFSETS[v & 7])
+    """cu: (1/8 lattice index) * LAT + offset; one draw, shrinks to 0"""
+    return st.integers(-128 * 8, 128 * 8 + 7).map(lambda v: (v >> 3) * LAT + OFFSETS[v & 7])
 
 
 def _step():
@@ -473,8 +561,9 @@ def _step():
     hor = st.tuples(st.just("hor"), _coord(), st.just(0))
     ver = st.tuples(st.just("ver"), st.just(0), _coord())
     zero = st.just(("zero", 0, 0))
-    short = st.tuples(st.just("short"), st.integers(-40, 40), st.integers(-40, 40))
-    return st.one_of(obl, obl, obl, hor, hor, ver, ver, zero, short)
+    short = st.tuples(st.just("short"), st.integers(-40, 40), st.integers(-40, 40))       # x 1e-3
+    micro = st.tuples(st.just("micro"), st.integers(-100, 100), st.integers(-100, 100))   # x 1e-5
+    return st.one_of(obl, obl, obl, hor, hor, ver, ver, zero, short, micro)
 
 
 def _qspec():
@@ -483,7 +572,7 @@ def _qspec():
     tin = st.integers(1, 7)
     tout = st.sampled_from([-8, -4, -1, 9, 12, 16])
     s = st.integers(-16, 16)
-    far = st.integers(-901, 900).map(lambda v: v + 100 if v >= 0 else v - 99)      # +-[100, 1000]
+    far = st.integers(-901, 900).map(lambda v: v + 100 if v >= 0 else v - 99)      # +-[100, 1000] whole units
     beside = st.tuples(st.just("beside"), isel, tin, s)
     beyond = st.tuples(st.just("beyond"), isel, tout, s)
     on = st.tuples(st.just("on"), isel, tin)
@@ -494,32 +583,36 @@ def _qspec():
     return st.one_of(beside, beside, beyond, beyond, on, vertex, farq, free, aligned)
 
 
-def _vertices(start, steps):
-    """integer (milli-unit) vertices; segment classes are made by construction"""
+def _vertices(start, steps, big=False):
+    """integer (cu) vertices; segment classes are made by construction.  A target coordinate closer than 1e-3 to the
+    current one (equal, or next to it after a micro step) is moved one lattice step away, so that only the micro steps
+    themselves have coordinate differences below 1e-3.  big (the case is translated): short and micro steps are 0.1 x
+    the drawn integers (0.1..10), the segment lengths stay far above the rounding at the translated magnitude."""
     vs = [start]
     if all(s[0] == "zero" for s in steps):
-        steps = steps[:-1] + [("obl", 125, 250)]
+        steps = steps[:-1] + [("obl", LAT, 2 * LAT)]
     for cls, a, b in steps:
         px, py = vs[-1]
         if cls == "obl":
-            nx = a if a != px else a + 125
-            ny = b if b != py else b + 125
+            nx = a if abs(a - px) >= MILLI else px + LAT
+            ny = b if abs(b - py) >= MILLI else py + LAT
         elif cls == "hor":
-            nx, ny = (a if a != px else a + 125), py
+            nx, ny = (a if abs(a - px) >= MILLI else px + LAT), py
         elif cls == "ver":
-            nx, ny = px, (b if b != py else b + 125)
+            nx, ny = px, (b if abs(b - py) >= MILLI else py + LAT)
         elif cls == "zero":
             nx, ny = px, py
         else:
             if a == 0 and b == 0:
                 a = 1
-            nx, ny = px + a, py + b
+            u = CU // 10 if big else MILLI if cls == "short" else 1
+            nx, ny = px + a * u, py + b * u
         vs.append((nx, ny))
     return vs
 
 
 def _query(vs, spec):
-    """query in 1/8000 units (integers), relative to a proper segment for the first three kinds"""
+    """query in 1/8 cu (integers), relative to a proper segment for the first three kinds"""
     kind = spec[0]
     if kind in ("beside", "beyond", "on"):
         proper = [i for i in range(len(vs) - 1) if vs[i] != vs[i + 1]]
@@ -535,7 +628,7 @@ def _query(vs, spec):
         j = spec[1] % len(vs)
         return (8 * vs[j][0], 8 * vs[j][1])
     if kind == "far":
-        a, b = spec[1] * 8000, spec[2] * 8000
+        a, b = spec[1] * 8 * CU, spec[2] * 8 * CU
         return (a, b) if spec[3] == 0 else (b, a)
     if kind == "aligned":
         j = spec[1] % len(vs)
@@ -545,22 +638,48 @@ def _query(vs, spec):
     return (8 * spec[1], 8 * spec[2])
 
 
+ZMODES = ["flat", "flat", "each-fix-differs", "below-eq-tolerance", "large"]
+
+
+def _heights(mode, n):
+    if mode == "each-fix-differs":
+        return [100.0 + 0.4 * i for i in range(n)]           # a repeated (x, y) has another z
+    if mode == "below-eq-tolerance":
+        return [(i % 2) * 3e-5 for i in range(n)]            # ... that ENUCoords.__eq__ (1e-4) does not tell apart
+    if mode == "large":
+        return [(-1000.0) ** (i % 2) * (i + 1) for i in range(n)]
+    return None
+
+
 def _build(t):
-    start, steps, specs = t
-    vs = _vertices(start, list(steps))
+    start, steps, specs, var = t
+    off = TRANSLATIONS[var % 16]
+    zmode = ZMODES[(var // 16) % 5]
+    ints = var // 80 == 1
+    vs = _vertices(start, list(steps), big=off != (0, 0))
     qs = [_query(vs, s) for s in specs]
-    return {"pts": [[x / 1000.0, y / 1000.0] for x, y in vs],
-            "qs": [[a / 8000.0, b / 8000.0] for a, b in qs],
+    case = {"pts": [[x / float(CU), y / float(CU)] for x, y in vs],
+            "qs": [[a / (8.0 * CU), b / (8.0 * CU)] for a, b in qs],
             "kinds": [s[0] for s in specs]}
+    if off != (0, 0):
+        case["off"] = [float(off[0]), float(off[1])]
+    zs = _heights(zmode, len(vs))
+    if zs:
+        case["zs"] = zs
+        case["qz"] = [0.0, 12.5][var % 2]
+    if ints:
+        case["ints"] = True
+    return case
 
 
 def _strategy(min_seg, max_seg, max_q, no_zero=False):
     step = _step()
     if no_zero:
-        step = step.map(lambda s: ("obl", 125, 250) if s[0] == "zero" else s)
+        step = step.map(lambda s: ("obl", LAT, 2 * LAT) if s[0] == "zero" else s)
     return st.tuples(st.tuples(_coord(), _coord()),
                      st.lists(step, min_size=min_seg, max_size=max_seg),
-                     st.lists(_qspec(), min_size=1, max_size=max_q)).map(_build)
+                     st.lists(_qspec(), min_size=1, max_size=max_q),
+                     st.integers(0, 159)).map(_build)
 
 
 def strat_segment():
@@ -577,7 +696,7 @@ def strat_map_track():
 
 # sequences: 1/8 lattice only, so that translations, moves and queries are exact in binary
 def _lat():
-    return st.integers(-128, 128).map(lambda k: k * 125)
+    return st.integers(-128, 128).map(lambda k: k * LAT)
 
 
 def _lat_step():
@@ -610,9 +729,9 @@ def _seq_queries(vs, specs):
     out = []
     for sp in specs:
         if sp[0] in ("beside", "beyond", "on") and all(vs[i] == vs[i + 1] for i in range(len(vs) - 1)):
-            sp = ("free", vs[0][0] + 125 * sp[2], vs[0][1] + 125)
+            sp = ("free", vs[0][0] + LAT * sp[2], vs[0][1] + LAT)
         a, b = _query(vs, sp)
-        out.append([a / 8000.0, b / 8000.0])
+        out.append([a / (8.0 * CU), b / (8.0 * CU)])
     return out
 
 
@@ -620,7 +739,7 @@ def _build_seq(t):
     start, steps, first, rounds = t
     tracks = [_vertices(start, list(steps))]
     act = 0
-    case = {"pts": [[x / 1000.0, y / 1000.0] for x, y in tracks[0]], "ops": []}
+    case = {"pts": [[x / float(CU), y / float(CU)] for x, y in tracks[0]], "ops": []}
 
     def project(ps):
         case["ops"].append([ps[0], _seq_queries(tracks[act], ps[1]), [q[0] for q in ps[1]]])
@@ -628,17 +747,17 @@ def _build_seq(t):
     def translate(k, l):
         if k == 0 and l == 0:
             k = 1
-        tracks[act] = [(x + 125 * k, y + 125 * l) for x, y in tracks[act]]
-        case["ops"].append(["translate", k * 125 / 1000.0, l * 125 / 1000.0])
+        tracks[act] = [(x + LAT * k, y + LAT * l) for x, y in tracks[act]]
+        case["ops"].append(["translate", k * LAT / float(CU), l * LAT / float(CU)])
 
     def move(name, j, x, y):
         j %= len(tracks[act])
         if tracks[act][j] == (x, y):
-            x += 125
+            x += LAT
         vs = list(tracks[act])
         vs[j] = (x, y)
         tracks[act] = vs
-        case["ops"].append([name, j, x / 1000.0, y / 1000.0])
+        case["ops"].append([name, j, x / float(CU), y / float(CU)])
 
     project(first)
     for ed, ps in rounds:
@@ -669,8 +788,14 @@ def strat_sequence():
                      st.lists(st.tuples(_edit_spec(), _proj_spec()), min_size=1, max_size=4)).map(_build_seq)
 
 
-RULE = ("Hypothesis: start vertex + 1..7 steps of class oblique / horizontal / vertical / zero-length / short (< 0.1), "
-        "coordinates n/1000 (1/8 lattice of [-16,16]^2 with offsets 0.1, 0.3, +-0.001); query relative to a proper segment "
+RULE = ("Hypothesis: start vertex + 1..7 steps of class oblique / horizontal / vertical / zero-length / short (1e-3..0.04 per "
+        "coordinate) / micro (1e-5..1e-3 per coordinate), "
+        "local coordinates n/100000 (1/8 lattice of [-16,16]^2 with offsets 0.1, 0.3, +-0.001); one more draw decides three "
+        "dimensions the earlier generator held constant: the translation of the whole case (10 in 16: one of 10 offsets, "
+        "multiples of 2^10 from 1e3 to 7.3e6 on one or both axes, grid values E 651264 / N 6860800 included; short and micro "
+        "steps are then 0.1..10), the heights of the reference track (flat / another z at every fix / z differing by 3e-5 / "
+        "large, and a query height 0 or 12.5 - used by the mapOnTrack sub-checks) and the number type (half of the cases hand "
+        "integer-valued coordinates over as Python ints); query relative to a proper segment "
         "(beside: foot at k/8 of the segment, off by s/8 segment lengths; beyond: parameter -1..2 outside [0,1]; on: s = 0), "
         "at a vertex, far (100..1000 away), free in the box, or sharing x or y with a vertex; 1..4 queries per polyline "
         "(1..5 for mapOnTrack(track, track)).  "
